@@ -574,3 +574,16 @@ fn verif_set_filter_collect_vec<F: Fn(&usize) -> bool>(s: &HashSet<usize>, f: F)
 {
     unimplemented!()
 }
+
+/// R6: `JOBS.iter().filter_map(f).collect::<HashSet<String>>()` (A-adapters)
+#[verifier::external_body]
+fn verif_filter_map_collect_set<F: Fn(&NodeInfo) -> Option<String>>(jobs: &Vec<NodeInfo>, f: F) -> (r: HashSet<String>)
+    requires
+        forall|j: &NodeInfo| #[trigger] f.requires((j,)),
+    ensures
+        forall|x: String| #[trigger] r@.contains(x) ==> exists|k: int| 0 <= k < jobs@.len() && f.ensures((&jobs@[k],), Some(x)),
+        forall|k: int| 0 <= k < jobs@.len() && !f.ensures((&#[trigger] jobs@[k],), None)
+            ==> exists|x: String| r@.contains(x) && f.ensures((&jobs@[k],), Some(x)),
+{
+    unimplemented!()
+}
